@@ -420,7 +420,7 @@ class Note:
 
     @controller.setter
     def controller(self, value):
-        self.ctl |= (value & 0xFF) << 8
+        self.ctl = (self.ctl & 0x00FF) | ((value & 0xFF) << 8)
 
     @property
     def effect(self):
@@ -428,7 +428,7 @@ class Note:
 
     @effect.setter
     def effect(self, value):
-        self.ctl |= value & 0xFF
+        self.ctl = (self.ctl & 0xFF00) | (value & 0xFF)
 
     @property
     def val_xx(self):
@@ -436,7 +436,7 @@ class Note:
 
     @val_xx.setter
     def val_xx(self, value):
-        self.val |= (value & 0xFF) << 8
+        self.val = (self.val & 0x00FF) | ((value & 0xFF) << 8)
 
     @property
     def val_yy(self):
@@ -444,7 +444,7 @@ class Note:
 
     @val_yy.setter
     def val_yy(self, value):
-        self.val |= value & 0xFF
+        self.val = (self.val & 0xFF00) | (value & 0xFF)
 
     @property
     def raw_data(self):
